@@ -43,6 +43,11 @@ def concretize(it, p, val, lo, hi):
 
 
 def find_closure(it, callee):
+    if "=>" in callee and callee.startswith("{closure@"):
+        header = callee.split("=>", 1)[1]
+        for mf in [it.mir] + it.mir.others:
+            if any(h == header for _, h in mf.headers):
+                return mf.find("^" + re.escape(header) + "$")
     m = re.search(r"\{closure@([^}]*)\}", callee)
     if not m:
         raise Unsupported("no closure in " + callee)
@@ -52,6 +57,17 @@ def find_closure(it, callee):
         if len(hits) == 1:
             return mf.find("^" + re.escape(hits[0]) + "$")
     raise Unsupported("closure body not found for " + tag)
+
+
+def find_closure_by_value(it, clo, callee):
+    """the MIR body of a closure VALUE (tagged at its creation site, see Interp.closure_name); falls back to the callee's generic argument"""
+    nm = getattr(clo, "name", None) if isinstance(clo, Tup) else None
+    if nm and "=>" in nm:
+        header = nm.split("=>", 1)[1]
+        for mf in [it.mir] + it.mir.others:
+            if any(h == header for _, h in mf.headers):
+                return mf.find("^" + re.escape(header) + "$")
+    return find_closure(it, callee if (not nm or "{closure@" not in nm) else nm.split("=>")[0])
 
 
 def call_single(it, target, p, args):
